@@ -84,7 +84,7 @@ def build_coq(targets: list[str], timeout: int = 1500) -> tuple[bool, str]:
 
 def coqc_file(path: Path, timeout: int = 600) -> tuple[int, str]:
     """Compile one scratch .v file against the built development."""
-    cmd = ["timeout", str(timeout), "coqc", "-R", str(COQ), "PV",
+    cmd = ["timeout", str(timeout), "coqc", "-noglob", "-R", str(COQ), "PV",
            "-w", "-notation-overridden,-deprecated-hint-without-locality,-abstract-large-number,-inexact-float",
            str(path)]
     p = subprocess.run(cmd, capture_output=True, text=True, cwd=path.parent)
